@@ -17,6 +17,8 @@ FORMATS = {
     "custom1": ["--line-numbers-left-format", "{nm:>5}|", "--line-numbers-right-format", "{np:<5}:"],
     "custom2": ["--line-numbers-left-format", "{nm:^7}", "--line-numbers-right-format", "[{np}] "],
     "both-in-left": ["--line-numbers-left-format", "{nm:>4}/{np:<4} ", "--line-numbers-right-format", ""],
+    # a precision is meaningless for a number: it must not cut digits off
+    "precision": ["--line-numbers-left-format", "{nm:>5.2}|", "--line-numbers-right-format", "{np:<3.1}|"],
 }
 
 
